@@ -23,7 +23,7 @@ EXPLANATION = ("should_notify / set_dev_notify are path-enumerated into guarded 
                "protocol is a typestate automaton run as an edge-sensitive forward dataflow over the inlined MIR of every "
                "driver entry point, with queue objects identified by field path and queue indices recovered from the "
                "constructors.")
-FLOORS = {'decision_fns': 1, 'add_sites': {'*': 17, 'noalloc': 6}, 'notify_sites': {'*': 17, 'noalloc': 6}, 'entry_points': {'*': 300, 'noalloc': 150},
+FLOORS = {'suppression_drivers': {'*': 3, 'noalloc': 2}, 'decision_fns': 1, 'add_sites': {'*': 17, 'noalloc': 6}, 'notify_sites': {'*': 17, 'noalloc': 6}, 'entry_points': {'*': 300, 'noalloc': 150},
           'protocol_entry_points': {'*': 17, 'noalloc': 6}}
 
 
@@ -104,6 +104,47 @@ def run(F, R):
         n1_decision(F, R, M, sn, tfield)
     n2_direction(F, R, M, byrole)
     n3_protocol(F, R, M, roles, byrole)
+    n5_suppression_siblings(F, R, M, roles)
+
+
+def n5_suppression_siblings(F, R, M, roles):
+    """Device->driver direction at driver level: every queue whose interrupts a driver can suppress
+    (set_dev_notify(false)) can be re-enabled by it (set_dev_notify(true)) - the enable/disable siblings cover the
+    same queues.  A queue left suppressed never interrupts again: completions are only seen by polling."""
+    sdn = set(k for k, v in roles.items() if v == 'set_dev_notify')
+    if not sdn:
+        # role by name-independent shape: queue method taking a bool that performs the only avail.flags store
+        sdn = set(b['id'] for b in F.bodies.values() if b.get('impl_adt') in (M.queue_adt, M.owning_adt) and b['name'] == 'set_dev_notify')
+    per = {}
+    for b in F.bodies.values():
+        if not F.handwritten(b) or b.get('impl_adt') in (M.queue_adt, M.owning_adt) or not b.get('impl_adt'):
+            continue
+        if not any(bl['term']['k'] == 'call' and bl['term'].get('fn') in sdn for bl in b['blocks']):
+            continue
+        sg = supergraph(F, b['id'], tag='flat', max_depth=0)
+        S = sg.sym
+        for n in sg.calls(lambda d: d.get('fn') in sdn):
+            q = S.operand(n.id, n.d['args'][0])
+            fld = None
+            for x in subterms(q):
+                if x[0] == 'loc' and x[2] and x[2][-1][0] == 'f' and x[2][-1][2] == b['impl_adt']:
+                    fld = x[2][-1][1]
+            v = strip_conv(S.operand(n.id, n.d['args'][1]))
+            val = v[1] if v[0] == 'const' else None
+            per.setdefault(b['impl_adt'], []).append((fld, val, b['id'], site(sg, n)))
+    n = 0
+    for adt, uses in sorted(per.items()):
+        n += 1
+        dis = set(f for f, v, _, _ in uses if v == 0)
+        en = set(f for f, v, _, _ in uses if v == 1)
+        var = set(f for f, v, _, _ in uses if v is None)
+        missing = sorted(x for x in dis if x not in en and x not in var)
+        where = [w for f, v, _, w in uses if f in missing and v == 0]
+        R.check(not missing, 'N5', '%s:suppress-enable-siblings' % adt, where[0] if where else adt,
+                'queues that can be suppressed %s can all be re-enabled %s' % (sorted(dis | var), sorted(en | var)),
+                'interrupts of queue field(s) %s of %s can be suppressed (set_dev_notify(false)) but no method re-enables them (set_dev_notify(true) only on %s): '
+                'after disable/enable the device keeps suppressing used-buffer notifications for that queue' % (missing, adt.rsplit('::', 1)[1], sorted(en)))
+    R.count('suppression_drivers', n)
 
 
 # ------------------------------------------------------------------------------------------------ N1
